@@ -615,6 +615,7 @@ class Splitter(Node):
                                 break
                         
                         if out_edge_index_to_put is not None:
+                            self.stats["out_edge_selection"].append(self.out_edges.index(out_edge_index_to_put))
                             blocking_start_time = self.env.now
                             self.check_thread_state_and_update_splitter_state()
                             self.env.active_process.thread_state = "BLOCKED_STATE"  # Update the thread state to PROCESSING_STATE BLOCKING
@@ -724,6 +725,7 @@ class Splitter(Node):
                             break
                     
                     if out_edge_index_to_put is not None:
+                        self.stats["out_edge_selection"].append(self.out_edges.index(out_edge_index_to_put))
                         blocking_start_time = self.env.now
                         self.check_thread_state_and_update_splitter_state()
                         self.env.active_process.thread_state = "BLOCKED_STATE"  # Update the thread state to PROCESSING_STATE BLOCKING
